@@ -616,11 +616,11 @@ theorem Inv0.tracks {st : State} (h : Inv0 st) (trk : List TrackSt) : Inv0 { st 
 
 theorem Inv0.openWrite {st : State} {si : Nat} {g g' : Seg} {np : Option Part} {trk : List TrackSt} (h : Inv0 st)
     (hsi : si < st.streams.length) (hg : (st.stream si).nextSegment = some g) (hid : g'.id = g.id)
-    (hparts : g'.parts = g.parts) (hsize : g'.size ≤ st.cfg.segmentMaxSize)
+    (hparts : g'.parts = g.parts) (hstart : g'.startDTS = g.startDTS) (hsize : g'.size ≤ st.cfg.segmentMaxSize)
     (hnp : ∀ p, np = some p → p.id = (st.stream si).nextPartID) :
     Inv0 { st with tracks := trk
                    streams := st.streams.set si { (st.stream si) with nextSegment := some g', nextPart := np } } := by
-  have hI := (h.streams si hsi).openUpd hg hid hparts hsize hnp
+  have hI := (h.streams si hsi).openUpd hg hid hparts hstart hsize hnp
   refine h.update rfl rfl hsi hI ?_ ?_
   · refine h.paths.same rfl rfl hsi rfl rfl ?_ rfl
     simp [allParts, openParts, hg, hparts]
@@ -640,7 +640,7 @@ theorem Inv0.partWriteSample {st : State} (h : Inv0 st) (ti : Nat) (smp : Sample
   · rw [heq]
     by_cases hsi : st.streamOf ti < st.streams.length
     · simp only [partWriteS]
-      refine h.openWrite hsi hg rfl rfl hsz ?_
+      refine h.openWrite hsi hg rfl rfl rfl hsz ?_
       intro p' hp'; cases hp'
       have := (h.streams _ hsi).partId p hp
       split <;> exact this
@@ -664,10 +664,10 @@ theorem SyncAll.partWriteSample {st : State} (h : SyncAll st) (ti : Nat) (smp : 
 
 theorem Inv0.tsWrite {st : State} (h : Inv0 st) (u : TsUnit) (size : Nat) (e : Option Int) (cnt : Bool) :
     Inv0 (tsWrite st u size e cnt).1 := by
-  rcases tsWrite_spec st u size e cnt with ⟨g, hg, hsz, g', hid, _, hsize, hparts, heq⟩ | ⟨heq, _⟩
+  rcases tsWrite_spec st u size e cnt with ⟨g, hg, hsz, g', hid, hstart, hsize, hparts, heq⟩ | ⟨heq, _⟩
   · rw [heq]
     by_cases hsi : 0 < st.streams.length
-    · have := h.openWrite (trk := st.tracks) (np := (st.stream 0).nextPart) hsi hg hid hparts (by omega)
+    · have := h.openWrite (trk := st.tracks) (np := (st.stream 0).nextPart) hsi hg hid hparts hstart (by omega)
         (fun p hp => (h.streams 0 hsi).partId p hp)
       exact this
     · have : st.streams = [] := List.eq_nil_of_length_eq_zero (by omega)
